@@ -454,3 +454,30 @@ def inline_new_helpers(tree: ast.Module, modname: str) -> int:
         return Inliner(tree, modname).run()
     except RecursionError:
         return 0
+
+
+def inlined_function(module_tree: ast.Module, caller_qual: str, depth: int = 3) -> ast.AST:
+    """a copy of the named function with *every* plain helper of its own module that it calls (nested functions, module-level
+    functions, methods of its class) inlined, whether or not the reference tree knows them - for rules that state an effect
+    of the function as a whole (`resetting X clears ...`) and must not care how the work is split into helpers"""
+    tree = copy.deepcopy(module_tree)
+    inl = Inliner(tree, "?")
+    for _ in range(depth):
+        quals = all_function_quals(tree)
+        if caller_qual not in quals:
+            raise KeyError(caller_qual)
+        caller, ccls, _ = quals[caller_qual]
+        before = inl.count
+        called = {c.func.id for c in ast.walk(caller) if isinstance(c, ast.Call) and isinstance(c.func, ast.Name)} | \
+                 {c.func.attr for c in ast.walk(caller) if isinstance(c, ast.Call) and isinstance(c.func, ast.Attribute) and isinstance(c.func.value, ast.Name) and c.func.value.id == "self"}
+        for q, (h, hcls, houter) in quals.items():
+            if h is caller or h.name not in called or not _eligible(h):
+                continue
+            try:
+                inl._inline_into(caller, h, hcls, ccls, houter)
+            except _Abort:
+                pass
+        if inl.count == before:
+            break
+    ast.fix_missing_locations(tree)
+    return all_function_quals(tree)[caller_qual][0]
